@@ -6,6 +6,7 @@ package dev
 import (
 	"errors"
 	"io"
+	"syscall"
 
 	"a0verif/plan/core"
 )
@@ -21,6 +22,15 @@ const MaxKeep = 1 << 20
 var ErrSim = errors.New("simulated device failure")
 var ErrWrappedEOF error = wrappedEOF{}
 
+// tempErr is a transient failure as net.Error / os errors report them.
+type tempErr struct{}
+
+func (tempErr) Error() string   { return "simulated device: resource temporarily unavailable" }
+func (tempErr) Temporary() bool { return true }
+func (tempErr) Timeout() bool   { return true }
+
+var ErrTemp error = tempErr{}
+
 func ErrOf(kind string) error {
 	switch kind {
 	case "":
@@ -35,6 +45,12 @@ func ErrOf(kind string) error {
 		return ErrWrappedEOF
 	case "closed":
 		return io.ErrClosedPipe
+	case "temp":
+		return ErrTemp
+	case "eagain":
+		return syscall.EAGAIN
+	case "eintr":
+		return syscall.EINTR
 	}
 	panic("dev: unknown error kind " + kind)
 }
